@@ -213,6 +213,8 @@ def build(recipe: dict):
     first, n = _period(recipe)
     g = np.random.default_rng(_seed("data", recipe["mid"], role, first, n))
     ga = np.random.default_rng(_seed("alter", rid(recipe)))
+    # temperature gaps must not depend on how `observed` is altered (C05 pairs differ in observed only)
+    gt = np.random.default_rng(_seed("tgap", recipe["mid"], first, n))
     defect = recipe.get("defect") if role == "baseline" else None
     obs = recipe.get("obs", "present") if role == "reporting" else "raw"
     electric = p["electric"]
@@ -246,7 +248,7 @@ def build(recipe: dict):
         if role == "reporting":
             y = _alter_observed(y, obs, ga)
             if recipe.get("tgap"):
-                temp_h = _apply_tgap(temp_h, 24, ga)  # DST days are 23/25 h; close enough for gap placement
+                temp_h = _apply_tgap(temp_h, 24, gt)  # DST days are 23/25 h; close enough for gap placement
         temp_series = pd.Series(temp_h, index=hidx, name="tempF")
         if fam == "daily":
             return _daily_ctor(recipe, days, y, temp_series, electric, obs)
@@ -278,7 +280,7 @@ def build(recipe: dict):
         y = _alter_observed(y, obs, ga)
         if recipe.get("tgap"):
             temp_h = temp_h.copy()
-            sel = ga.choice(np.arange(24, len(temp_h) - 24), size=max(2, len(temp_h) // 400), replace=False)
+            sel = gt.choice(np.arange(24, len(temp_h) - 24), size=max(2, len(temp_h) // 400), replace=False)
             temp_h[sel] = np.nan
     return _hourly_ctor(recipe, hidx, y, temp_h, ghi, electric, obs)
 
